@@ -5,6 +5,7 @@ Require Import ExtrOcamlBasic.
 Require Import ExtrOcamlString.
 From Coq Require Import ZArith List String.
 Require Import Cspuz.Lib.PyErr Cspuz.Backend.Config Cspuz.Gen.ConfigTables .
-Extraction "model.ml" Z.add Nat.add pyerr_code ConfigTables.tables
+Definition the_tables : Config.tables := ConfigTables.tables.
+Extraction "model.ml" Z.add Nat.add pyerr_code the_tables
   strtobool detect_backend config_of_env env_of_list avail_of_list
   backend_by_name get_backend solve_receiver resolve_primitive emits.
